@@ -6,4 +6,7 @@ spec fn tree_frame(f0: TxFreelist, f1: TxFreelist) -> bool {
     &&& (txfl_inv(f0) ==> txfl_inv(f1))
     &&& f1.meta.pagesize == f0.meta.pagesize && f1.meta.tx_id == f0.meta.tx_id
     &&& f1.meta.num_pages >= f0.meta.num_pages
+    // the tree layer frees only pages of the tree it was handed, which lie below the high-water mark (what check() decides at run
+    // time): pending ids stay tree pages below the (growing) high-water mark
+    &&& (pend_in_range(f0.inner, f0.meta.num_pages) ==> pend_in_range(f1.inner, f1.meta.num_pages))
 }
